@@ -25,6 +25,8 @@ import FV.Proofs.Receivers2
 import FV.Proofs.Receivers2Framed
 import FV.Model.Receivers3
 import FV.Proofs.Receivers3
+import FV.Model.Receivers4
+import FV.Proofs.Receivers4
 
 namespace FV.C05
 open FV
@@ -290,5 +292,84 @@ example : ∃ f : Bytes, f.length ≤ maxFrame ∧ (registryExecuteEmpty f).isOk
       Hdrs.set, Hdrs.get?, opIdHeader, parseU64, digitsVal, Res.isOk]⟩
 example : (Recv3.processReply [112] [9]).isOk = true := by decide
 example : Stomp.recvAll (fun p => p.head? == some 0) Stomp.init [[1], [], [0, 0, 0, 1, 0]] = .ok ⟨true, 1, 1⟩ := by decide
+
+end FV.C05
+
+/-! ## Fourth part — the HTTP client response path (`fHTTPTransport.Request` + `FStandardClient.Call`/`Oneway`),
+model `FV.Model.Receivers4`. The model starts from the status code and what `base64.StdEncoding` made of the
+body. -/
+namespace FV.C05
+open FV FV.Recv4
+
+/-- `fHTTPTransport.Request` on every status and every body: an error, `(nil, nil)` or reply bytes. -/
+theorem c05_no_panic_httpRequest (status : Nat) (body : B64) : ∀ p, httpRequest status body ≠ .panic p :=
+  httpRequest_no_panic status body
+
+/-- (e) Client response path over HTTP: for EVERY status code and EVERY body, `FStandardClient.Call` returns
+the transport's error or ends in a stage of `processReply` — never a panic (in particular not the nil
+dereference of the code before the repair, see the counterexample below). -/
+theorem c05_http_call_total (method : Bytes) (status : Nat) (body : B64) :
+    (∃ e, httpCall true method status body = .req e) ∨ (∃ o, httpCall true method status body = .reply o) :=
+  httpCall_total method status body
+
+/-- `Oneway` over HTTP: nil or the transport's error, for every status and body. -/
+theorem c05_http_oneway_total (status : Nat) (body : B64) : ∃ r, httpOneway status body = .ok r :=
+  httpOneway_total status body
+
+/-- The 4 zero bytes a server sends for a one-way, received for a TWO-WAY call, are an error (INVALID_DATA). -/
+theorem c05_http_zero_frame_is_error (method : Bytes) (status : Nat) (b : Bytes)
+    (h1 : status ≠ 413) (h2 : status < 300) (hl : b.length = 4) (hz : rd32 b = 0) :
+    httpCall true method status (.decoded b) = .req .invalidData := by
+  have := (httpRequest_nil status (.decoded b)).mpr ⟨h1, h2, b, rfl, hl, hz⟩
+  unfold httpCall
+  rw [this]
+  rfl
+
+/-- Before the repair (`guarded = false`: `Call` handed the nil transport to `processReply`) the same response
+is a nil-pointer panic in the caller's goroutine: the statement of C05 was false of that code. -/
+theorem c05_http_zero_frame_unfixed_counterexample (method : Bytes) :
+    httpCall false method 200 (.decoded [0, 0, 0, 0]) = .nilDeref := by
+  have h : httpRequest 200 (.decoded [0, 0, 0, 0]) = .nilTransport :=
+    (httpRequest_nil 200 (.decoded [0, 0, 0, 0])).mpr ⟨by omega, by omega, [0, 0, 0, 0], rfl, rfl, rfl⟩
+  unfold httpCall
+  rw [h]
+  rfl
+
+/-- Composition with the generic client path: when the transport hands back reply bytes — a response below
+300, not 413, base64 of more than 4 bytes — `Call` is exactly `processReply` on the bytes behind the first
+four (their value is never compared with the length: modelled as it is), with all that is proved of it:
+no panic, `_opid` never set, accepted only if a REPLY for the method. -/
+theorem c05_http_call_composes (method : Bytes) (status : Nat) (b : Bytes)
+    (h1 : status ≠ 413) (h2 : status < 300) (hl : 4 < b.length) :
+    ∃ o, Recv3.processReply method (b.drop 4) = .ok o ∧ httpCall true method status (.decoded b) = .reply o := by
+  have ht := (httpRequest_transport status (.decoded b) (b.drop 4)).mpr ⟨h1, h2, b, rfl, hl, rfl⟩
+  obtain ⟨o, ho⟩ := Recv3.processReply_total method (b.drop 4)
+  refine ⟨o, ho, ?_⟩
+  unfold httpCall
+  rw [ht]
+  dsimp only
+  rw [ho]
+
+/-- Everything that is not such a response is an error for a two-way call, and no reply is read from it. -/
+theorem c05_http_call_rejects_the_rest (method : Bytes) (status : Nat) (body : B64)
+    (h : ¬ (status ≠ 413 ∧ status < 300 ∧ ∃ b, body = .decoded b ∧ 4 < b.length)) :
+    ∃ e, httpCall true method status body = .req e := by
+  unfold httpCall
+  split
+  · exact ⟨_, rfl⟩
+  · rename_i p hp; exact absurd hp (httpRequest_no_panic _ _ p)
+  · exact ⟨_, rfl⟩
+  · rename_i r hr
+    obtain ⟨a, b, bb, hb, hl, _⟩ := (httpRequest_transport status body r).mp hr
+    exact absurd ⟨a, b, bb, hb, hl⟩ h
+
+/-- The HTTP client path keeps no state between responses. -/
+theorem c05_http_client_stateless (garbage : List (Nat × B64)) (method : Bytes) (st : Nat) (w : B64) :
+    (garbage.map (fun g => httpCall true method g.1 g.2), httpCall true method st w).2 = httpCall true method st w := rfl
+
+example : httpCall true [112] 200 (.decoded [0, 0, 0, 0]) = .req .invalidData :=
+  c05_http_zero_frame_is_error [112] 200 [0, 0, 0, 0] (by omega) (by omega) rfl rfl
+example : httpCall true [112] 413 .invalid = .req .tooLarge := rfl
+example : httpOneway 500 (.decoded [0, 0, 0, 0]) = .ok (some .transport) := rfl
 
 end FV.C05
